@@ -1,5 +1,6 @@
 import WebpVerif.Lemmas.EncHuff
 import WebpVerif.Lemmas.EncHuffCodes
+import WebpVerif.Lemmas.EncHuffTree
 
 /-!
 # C14 — encoder prefix codes are complete, length-limited and canonical for any histogram
@@ -65,11 +66,34 @@ theorem codes_canonical (lengths : Array Nat) (limit : Nat) (hlim : limit ≤ 16
         (Prefix.canonicalCode lengths.toList j).map (fun c => Prefix.reverseBits c lengths[j]!) :=
   assign_canonical lengths limit hlim hall hk
 
-/-- The property at full strength for the model (stated; proved: Kraft equality of any tree,
-    positivity, the limiting move, and all of phase 4 - final assert ⇔ Kraft equality, canonical
-    bit-reversed code words; the composition through the heap, the limiting loop and the
-    reassignment is validated by the correspondence run, which evaluates exactly these clauses on
-    the real output). -/
+/-- **The property for every histogram whose Huffman tree needs no limiting** (the common case:
+    depth within the limit): `build_huffman_tree` - std's heap with whatever tie-breaking, the
+    merge loop, the depth walk, the code assignment, the closing assert - returns lengths that are
+    0 exactly for the unused symbols and within 1..limit for the used ones, satisfy the Kraft
+    equality, and carry the specification's canonical bit-reversed code words.  Proved through:
+    every heap operation is a permutation; the merge loop ends with one tree over exactly the used
+    symbols; the depth walk; Kraft equality of any tree; phase 4. -/
+theorem full_when_no_limiting (freqs : List Nat) (limit : Nat) (hlim : limit ≤ 16)
+    (h2 : 2 ≤ (freqs.filter (· > 0)).length) (h256 : (freqs.filter (· > 0)).length ≤ 256)
+    (hmax : (treeLengths freqs).foldl max 0 ≤ limit) :
+    ∃ lengths codes, build freqs limit = .built lengths codes ∧ lengths.size = freqs.length ∧
+      (∀ i, i < freqs.length → (freqs[i]! = 0 → lengths[i]! = 0) ∧ (freqs[i]! > 0 → 1 ≤ lengths[i]! ∧ lengths[i]! ≤ limit)) ∧
+      Prefix.kraft lengths.toList limit = 2 ^ limit ∧
+      (∀ i, i < freqs.length → lengths[i]! ≠ 0 →
+        some codes[i]! = (Prefix.canonicalCode lengths.toList i).map fun c => Prefix.reverseBits c lengths[i]!) :=
+  build_unlimited freqs limit hlim h2 h256 hmax
+
+-- the hypotheses are satisfiable: a concrete histogram
+example : 2 ≤ ([5, 0, 3, 1, 1].filter (· > 0)).length ∧ ([5, 0, 3, 1, 1].filter (· > 0)).length ≤ 256 ∧
+    (treeLengths [5, 0, 3, 1, 1]).foldl max 0 ≤ 15 := by decide
+
+/-- The property at full strength for the model (stated).  Proved: the whole statement whenever
+    no limiting is needed and at most 256 symbols are used (`full_when_no_limiting`); for the
+    limiting case: the limiting move and all of phase 4 (final assert ⇔ Kraft equality, canonical
+    bit-reversed code words); the limiting loop and the reassignment as a whole, and histograms
+    with more than 256 used symbols (where the `depth as u8` cast needs the optimality of the
+    merge order) are validated by the correspondence run, which evaluates exactly these clauses on
+    the real output. -/
 def full : Prop :=
   ∀ (freqs : List Nat) (limit : Nat), freqs.length ≤ 2 ^ limit → limit ≤ 15 → 1 ≤ limit → freqs.sum < 2 ^ 32 →
     2 ≤ (freqs.filter (· > 0)).length →
